@@ -200,8 +200,10 @@ namespace igris
                     // rnrnrnrn
                     if ((_last == '\n' || _last == '\r') && _last != c)
                     {
+                        // second byte of a CR LF / LF CR pair: forget it, so
+                        // that the next CR or LF starts a new line
                         _last = 0;
-                        retcode = READLINE_NOTHING;
+                        return READLINE_NOTHING;
                     }
                     else
                     {
